@@ -125,11 +125,30 @@ def check(pid, tier, seed, replay=None):
         ctx, audit, ok = _build_phase(mod, pid, ctx)
 
     # 3. correspondence and end-to-end search
+    # A change of the code under test can make it hang on a generated input (in process or in a runner).  The search gets a
+    # budget; when it is used up the run is reported as not finished (the property is then not shown to hold) instead of never
+    # returning, and every child process is killed.
+    import signal
+    budget = int(os.environ.get("VERIF_RUN_BUDGET", "1500" if tier == "quick" else "14400"))
+
+    class _Budget(BaseException):
+        pass
+
+    def _alarm(signum, frame):
+        raise _Budget()
+    signal.signal(signal.SIGALRM, _alarm)
+    signal.alarm(budget)
     try:
         mod.run(ctx, model_ok=ok)
+    except _Budget:
+        ctx.broken.append(f"the correspondence / search did not finish within {budget} s: the implementation hangs or is extremely "
+                          f"slow on a generated input ({ctx.evaluations} evaluations were completed before)")
+        core.kill_children()
     except Exception as e:  # a crashing harness must not look like a pass
         import traceback
         ctx.broken.append("harness crashed: " + "".join(traceback.format_exception(e))[-1500:])
+    finally:
+        signal.alarm(0)
 
     # 4. pinned reproducers of this property
     findings = [f for f in core.load_findings() if f["property"] == pid or pid in f.get("also", [])]
